@@ -33,7 +33,7 @@ RULE = ("progen func/arith/scf/cf programs over i1,i8,i16,i32,i64,index,f32,f64 
         "fastmath flags) in four campaigns: general programs with arguments, nsw/nuw-flagged programs, argument-free "
         "(fully constant, foldable) programs, and 'flat' modules (ops at module top level + test.op sink, the form "
         "the constant-folding test passes operate on); plus a deterministic fold table: every arith binary op / "
-        "cmpi+cmpf predicate / cast / select / negf on boundary x boundary constant operands, 32 ops per function. "
+        "cmpi+cmpf predicate / cast / select / negf on boundary x boundary constant operands, 24 ops per function. "
         "Each program is cloned and run through canonicalize, constant-fold-interp, test-constant-folding, "
         "test-specialised-constant-folding, cse and one random pipeline of 2-3 of them (fresh Context with all "
         "dialects per pass). Oracle per pipeline stage: the pass must not raise; its output must verify(); "
@@ -798,6 +798,52 @@ def _tuple_defined(tmpl, in_tys, out_ty, tup):
     return not any(x is refsem.POISON or isinstance(x, str) for x in r)
 
 
+class _Probe:
+    """Records the harness calls of one run_case so that a table group with a NEW mismatch can be re-run one
+    operand tuple at a time (the reported recipe is then minimal); otherwise the calls are forwarded."""
+
+    def __init__(self, h):
+        self.h, self.calls, self.new_mismatch = h, [], False
+        self._shrinking, self.samples = h._shrinking, h.samples
+
+    def _rec(self, name, *a, **k):
+        self.calls.append((name, a, k))
+
+    def case(self, *a, **k):
+        self._rec("case", *a, **k)
+
+    def count(self, *a, **k):
+        self._rec("count", *a, **k)
+
+    def exclude(self, *a, **k):
+        self._rec("exclude", *a, **k)
+
+    def discard(self, *a, **k):
+        self._rec("discard", *a, **k)
+
+    def inconclusive(self, *a, **k):
+        self._rec("inconclusive", *a, **k)
+
+    def mismatch(self, sig, recipe, detail=""):
+        if self.h.known_for({k: str(v) for k, v in sig.items()}) is None:
+            self.new_mismatch = True
+        self._rec("mismatch", sig, recipe, detail)
+
+    def flush(self):
+        for name, a, k in self.calls:
+            getattr(self.h, name)(*a, **k)
+
+
+def run_table_group(h, tmpl, in_tys, out_ty, tuples, pipes, lab, flat=0):
+    probe = _Probe(h)
+    run_case(probe, table_recipe(tmpl, in_tys, out_ty, tuples, pipes, flat), lab)
+    if not probe.new_mismatch or len(tuples) == 1:
+        probe.flush()
+        return
+    for tup in tuples:
+        run_case(h, table_recipe(tmpl, in_tys, out_ty, [tup], pipes, flat), lab)
+
+
 def fold_table(h):
     cfgs = _table_configs(h.quick)
     for i, (tmpl, in_tys, out_ty, doms) in enumerate(cfgs):
@@ -815,11 +861,10 @@ def fold_table(h):
         for tuples, lab in groups:
             if not tuples:
                 continue
-            run_case(h, table_recipe(tmpl, in_tys, out_ty, tuples, pipes), lab)
+            run_table_group(h, tmpl, in_tys, out_ty, tuples, pipes, lab)
             if tmpl["op"] == "addi" and lab == "table":
-                run_case(h, table_recipe(tmpl, in_tys, out_ty, tuples,
-                                         [["test-specialised-constant-folding"], ["test-constant-folding"]], flat=1),
-                         "table_flat")
+                run_table_group(h, tmpl, in_tys, out_ty, tuples,
+                                [["test-specialised-constant-folding"], ["test-constant-folding"]], "table_flat", flat=1)
         h.count("table_config")
 
 
@@ -835,6 +880,6 @@ def replay(h, recipe):
 def checks(h):
     _init()
     fold_table(h)
-    for salt, (name, q, t) in enumerate([("general", 220, 5000), ("const", 140, 3000), ("flat", 70, 1500),
-                                         ("flags", 50, 1500)]):
+    for salt, (name, q, t) in enumerate([("general", 220, 6000), ("const", 140, 4000), ("flat", 70, 2000),
+                                         ("flags", 50, 2000)]):
         h.hyp(name, campaign(name), lambda r, name=name: run_case(h, r, name), h.scale(q, t), 1 + salt)
